@@ -2,6 +2,7 @@ use std::any::type_name;
 use std::borrow::Borrow;
 use std::fmt;
 use std::ops::Deref;
+use std::panic::{AssertUnwindSafe, catch_unwind, resume_unwind};
 use std::pin::Pin;
 use std::ptr::NonNull;
 use std::sync::Arc;
@@ -206,8 +207,17 @@ impl Drop for Remover {
         // SAFETY: The remover controls the shared object lifetime and is the only thing
         // that can remove the item from the pool. We keep the pool alive for as long as any
         // handle or remover referencing it exists, so the pool must still exist.
-        unsafe {
+        // AssertUnwindSafe: removal runs the object's destructor, which is user code and may
+        // panic. The pool completes its bookkeeping before the destructor runs, so we drop the
+        // guard cleanly (instead of poisoning the pool for every other handle) and re-throw
+        // the user's panic without tampering.
+        let result = catch_unwind(AssertUnwindSafe(|| unsafe {
             pool.remove(self.handle);
+        }));
+        drop(core);
+
+        if let Err(payload) = result {
+            resume_unwind(payload);
         }
     }
 }
